@@ -5,7 +5,7 @@
    bound is needed, because an sdk overflow takes the SafeMath fallback (all outputs zero), which
    the model contains; the module's 10^40 bound is therefore not a hypothesis.  Dec values (the
    fee rate) are their 10^18-scaled integers; P18 = 10^18. *)
-From Comdex Require Import Lib.Base Lib.DecArith Lib.DecFacts Model.Pool Proofs.PoolProofs Proofs.PoolCreateProofs.
+From Comdex Require Import Lib.Base Lib.DecArith Lib.DecFacts Model.Pool Proofs.PoolProofs Proofs.PoolCreateProofs Proofs.SqrtProofs.
 From Comdex Require Model.Liquidity Model.LiquidityWitness.
 
 (* A deposit never takes more of either coin than was offered. *)
@@ -25,7 +25,8 @@ Proof. vm_compute. reflexivity. Qed.
    price triples on which the call returns a pool.  The two-sided branch recomputes the accepted x
    from y only when the y that goes with all of x is STRICTLY more than offered; the proof needs that
    strictness and the exact rounding of each Quo / Mul (Proofs/PoolCreateProofs.v).
-   PARTIAL in one respect: the hypothesis [ranged_roots_ok] - the three Newton square roots the call
+   (Kept for reference; superseded by the unconditional c06_create_ranged_bounded below, which discharges the
+   hypothesis.)  PARTIAL in one respect: the hypothesis [ranged_roots_ok] - the three Newton square roots the call
    computes satisfy 0 < sqrt(min) <= sqrt(initial) <= sqrt(max) - is not derived from
    ValidateRangedPoolParams (MISSING: a monotonicity / positivity lemma for the 300-step Newton
    iteration utils.DecApproxSqrt).  It is an executable predicate; the runner evaluates it on every
@@ -49,6 +50,65 @@ Example c06_create_ranged_balanced_ex :
   create_ranged_amounts 1000000 9998500175 minP maxP initP = Ok (1000000, 9998500175) /\
   create_ranged_amounts 1000000 9998500174 minP maxP initP = Ok (1000000, 9998500174) /\
   create_ranged_amounts 1000000 9998500176 minP maxP initP = Ok (1000000, 9998500175).
+Proof. vm_compute. repeat split; reflexivity. Qed.
+
+(* The hypothesis [ranged_roots_ok] is a consequence of ValidateRangedPoolParams.  About the model of
+   utils.DecApproxSqrt = LegacyDec.ApproxRoot(2) (Newton from the start value 1, every Quo rounded half-even at
+   18 decimals, the halving an arithmetic shift, stop when |delta| <= 10^-18 or after 300 iterations),
+   Proofs/SqrtProofs.v proves, for every argument 0 < d <= 10^20 (= MaxPoolPrice; MinPoolPrice = 10^-15 > 0):
+   the loop leaves through the delta test (never through the 300 cap), the result r is positive and is
+   floor(sqrt(d * 10^18)) or that plus one - more precisely sqrt X - 3/4 - 10^-18 <= r <= sqrt X + 1/4 + 0.8/sqrt X
+   with X = d * 10^18 - and, because two different 18-decimal arguments in that range have exact roots more than
+   10^-10 units apart, the result is EXACTLY weakly monotone in the argument. *)
+Theorem c06_sqrt_positive_monotone : forall x y,
+  0 < x -> x <= y -> y <= MaxPoolPrice ->
+  0 < dsqrt x /\ dsqrt x <= dsqrt y /\
+  (dsqrt x - 1) * (dsqrt x - 1) <= x * P18 < (dsqrt x + 1) * (dsqrt x + 1).
+Proof.
+  intros x y Hx Hxy Hy. rewrite MaxPoolPrice_eq in Hy.
+  split; [apply dsqrt_pos; lia|]. split; [apply dsqrt_mono; assumption|].
+  apply (dsqrt_error x); lia.
+Qed.
+Print Assumptions c06_sqrt_positive_monotone.
+
+(* boundary values: the two ends of the validated range, the fixed points 0 and 1, adjacent 18-decimal
+   arguments whose roots coincide, and an argument that is exactly on the r / r+1 threshold *)
+Example c06_sqrt_ex :
+  dsqrt MinPoolPrice = 31622776601 /\ dsqrt (MinPoolPrice + 1) = 31638584039 /\
+  dsqrt MaxPoolPrice = 10 ^ 28 /\ dsqrt (MaxPoolPrice - 1) = 10 ^ 28 /\
+  dsqrt P18 = P18 /\ dsqrt (P18 + 1) = P18 /\ dsqrt (P18 - 1) = P18 - 1 /\
+  dsqrt (2 * P18) = 1414213562373095049 /\
+  dsqrt (36 * P18 + 9) = 6 * P18 + 1 /\ dsqrt (36 * P18 + 8) = 6 * P18.
+Proof. vm_compute. repeat split; reflexivity. Qed.
+
+Theorem c06_validated_roots_ok : forall minP maxP initP,
+  validate_ranged minP maxP initP = Ok tt -> ranged_roots_ok minP maxP initP = true.
+Proof. exact validate_ranged_roots_ok. Qed.
+Print Assumptions c06_validated_roots_ok.
+
+(* Hence, UNCONDITIONALLY: creating a ranged pool never accepts more of either coin than was offered, for all
+   offered amounts and all price triples (min, max, initial) on which CreateRangedPool returns a pool (i.e. all
+   triples that pass ValidateRangedPoolParams and on which the call does not panic). *)
+Theorem c06_create_ranged_bounded : forall x y minP maxP initP ax ay,
+  0 <= x -> 0 <= y ->
+  create_ranged_amounts x y minP maxP initP = Ok (ax, ay) ->
+  0 <= ax <= x /\ 0 <= ay <= y /\ holds_C06_create x y ax ay = true.
+Proof.
+  intros x y minP maxP initP ax ay Hx Hy H.
+  pose proof (create_ranged_amounts_bounded_all x y minP maxP initP ax ay Hx Hy H) as (A & B).
+  split; [exact A|]. split; [exact B|]. unfold holds_C06_create. lia.
+Qed.
+Print Assumptions c06_create_ranged_bounded.
+
+(* non-vacuity at the edge the hypothesis was about: initial one unit (10^-18) above min and one unit below max,
+   at the top of the price range where adjacent arguments have the same root *)
+Example c06_create_ranged_bounded_ex :
+  let minP := 9 * 10 ^ 37 in let maxP := 10 ^ 38 in
+  validate_ranged minP maxP (minP + 1) = Ok tt /\ validate_ranged minP maxP (maxP - 1) = Ok tt /\
+  dsqrt minP = dsqrt (minP + 1) /\ dsqrt maxP = dsqrt (maxP - 1) /\
+  create_ranged_amounts 1000000 1000000 minP maxP (minP + 1) = Panic /\
+  create_ranged_amounts 1000000 1000000 minP maxP (maxP - 1) = Ok (1000000, 0) /\
+  create_ranged_amounts 1000000 1000000 (10 ^ 3) (10 ^ 38) (10 ^ 18) = Ok (1000000, 1000000).
 Proof. vm_compute. repeat split; reflexivity. Qed.
 
 (* Shares are minted at a rate no better than the pool's reserves per share:
